@@ -42,3 +42,9 @@ Theorem C18_constant_window : forall N thr h c x, (0 < N)%nat -> 0 <= thr ->
   exists s s', oexec (hampel_step thr) (init N) (h ++ [c]) = Some s /\ hampel_step thr s x = Some (s', c).
 Proof. exact hampel_constant_window. Qed.
 Print Assumptions C18_constant_window.
+
+(* ---- the generic (float / integer) model of the bit-exact stream, instantiated at the rationals, is the model above ---- *)
+From Signalo Require Base.Arith Model.Generic Proofs.Generic.
+Theorem C18_generic_hampel : forall thr s x, Signalo.Model.Generic.g_hampel_step Signalo.Proofs.Generic.Qcar Signalo.Model.Hampel.mad_factor thr s x = Signalo.Model.Hampel.hampel_step thr s x.
+Proof. exact Signalo.Proofs.Generic.gq_hampel. Qed.
+Print Assumptions C18_generic_hampel.
